@@ -281,6 +281,9 @@ pub struct Engine<'a> {
     pub rng: Rng,
     pub cfg: Cfg,
     pub universe: u32,
+    /// light sweep (Miri / valgrind): look up only the class just operated on and one other
+    pub light: bool,
+    pub focus: u32,
 }
 
 // `m.get(q)` in a generic context makes rustc pick the `K: Borrow<KeyF::Q>` where-clause
@@ -302,7 +305,21 @@ macro_rules! lookup {
 }
 
 impl<'a> Engine<'a> {
+    /// open a monitored step; in light mode (Miri) the description is not built
+    fn step(&mut self, op: &'static str, d: impl FnOnce() -> String) {
+        if self.light {
+            self.h.begin_step(op, String::new());
+            self.cx.rep.hit(op);
+        } else {
+            self.h.begin_step(op, d());
+        }
+    }
     fn pick_class<F: Fam, const N: usize>(&mut self, s: &Sut<F, N>) -> u32 {
+        let c = self.pick_class0(s);
+        self.focus = c;
+        c
+    }
+    fn pick_class0<F: Fam, const N: usize>(&mut self, s: &Sut<F, N>) -> u32 {
         if !s.order.is_empty() && self.rng.below(8) < self.cfg.p_present {
             // first / last / uniform position
             match self.rng.below(4) {
@@ -432,7 +449,11 @@ impl<'a> Engine<'a> {
             return;
         }
         // lookups for every class of the universe, by borrowed form and by key
+        let other = 1 + (self.focus + 1 + self.h.step) % self.universe.max(1);
         for class in 1..=self.universe {
+            if self.light && class != self.focus && class != other {
+                continue;
+            }
             let want = s.model.get(class).cloned();
             for byq in [true, false] {
                 let m = s.fr.get();
@@ -494,13 +515,13 @@ impl<'a> Engine<'a> {
         let tag = self.h.tag();
         let payload = self.h.payload();
         let name = OPS[which];
-        self.h.begin_step(name, format!("{}(K{}#{}, V{})", name, class, tag, payload));
+        self.step(name, || format!("{}(K{}#{}, V{})", name, class, tag, payload));
         self.fp_step(s, which, class, 0);
         let pre = s.model.get(class).cloned();
         let full = s.model.is_full();
         let fill = fill_name(s.model.len(), N);
         let pos = pos_name(&s.order, class);
-        self.cx.rep.hit(&format!("{}:{}:{}", name, pos, fill));
+        if !self.light { self.cx.rep.hit(&format!("{}:{}:{}", name, pos, fill)); }
         let k = F::K::mk(class, tag);
         let v = F::V::mk(payload);
         let (kid, vid) = (k.id(), v.id());
@@ -581,9 +602,9 @@ impl<'a> Engine<'a> {
         let class = self.pick_class(s);
         let byq = self.rng.chance(1, 2);
         let newp = self.h.payload();
-        self.h.begin_step("get_mut", format!("get_mut({}{}) = V{}", if byq { "Q" } else { "K" }, class, newp));
+        self.step("get_mut", || format!("get_mut({}{}) = V{}", if byq { "Q" } else { "K" }, class, newp));
         self.fp_step(s, O_GETMUT, class, u64::from(byq));
-        self.cx.rep.hit(&format!("get_mut:{}:{}", pos_name(&s.order, class), fill_name(s.model.len(), N)));
+        if !self.light { self.cx.rep.hit(&format!("get_mut:{}:{}", pos_name(&s.order, class), fill_name(s.model.len(), N))); }
         let m = s.fr.get_mut();
         let r: Option<u32> = lookup!(F, class, byq, |q| m.get_mut::<QT!()>(q).map(|v| {
             v.chk("get_mut()");
@@ -608,9 +629,9 @@ impl<'a> Engine<'a> {
         let byq = self.rng.chance(1, 2);
         let newp = self.h.payload();
         let name = if mutating { "index_mut" } else { "index" };
-        self.h.begin_step(name, format!("{}[{}{}]", name, if byq { "Q" } else { "K" }, class));
+        self.step(name, || format!("{}[{}{}]", name, if byq { "Q" } else { "K" }, class));
         self.fp_step(s, if mutating { O_INDEXMUT } else { O_INDEX }, class, u64::from(byq));
-        self.cx.rep.hit(&format!("{}:{}:{}", name, pos_name(&s.order, class), fill_name(s.model.len(), N)));
+        if !self.light { self.cx.rep.hit(&format!("{}:{}:{}", name, pos_name(&s.order, class), fill_name(s.model.len(), N))); }
         let m = s.fr.get_mut();
         let r: Caught<u32> = fault::catch(|| {
             lookup!(F, class, byq, |q| {
@@ -647,9 +668,9 @@ impl<'a> Engine<'a> {
         let class = self.pick_class(s);
         let byq = self.rng.chance(1, 2);
         let name = if entry { "remove_entry" } else { "remove" };
-        self.h.begin_step(name, format!("{}({}{})", name, if byq { "Q" } else { "K" }, class));
+        self.step(name, || format!("{}({}{})", name, if byq { "Q" } else { "K" }, class));
         self.fp_step(s, if entry { O_REMOVE_ENTRY } else { O_REMOVE }, class, u64::from(byq));
-        self.cx.rep.hit(&format!("{}:{}:{}", name, pos_name(&s.order, class), fill_name(s.model.len(), N)));
+        if !self.light { self.cx.rep.hit(&format!("{}:{}:{}", name, pos_name(&s.order, class), fill_name(s.model.len(), N))); }
         let m = s.fr.get_mut();
         // (key tag/id if returned, payload, vid)
         let r: Option<(Option<(u32, u64)>, u32, u64)> = lookup!(F, class, byq, |q| {
@@ -688,12 +709,12 @@ impl<'a> Engine<'a> {
     fn op_retain<F: Fam, const N: usize>(&mut self, s: &mut Sut<F, N>) {
         let mask = self.rng.next();
         let mutate = self.rng.chance(1, 2);
-        self.h.begin_step("retain", format!("retain(mask={:#06x}, mutate={})", mask & 0xFFFF, mutate));
+        self.step("retain", || format!("retain(mask={:#06x}, mutate={})", mask & 0xFFFF, mutate));
         self.fp_step(s, O_RETAIN, 0, (mask & ((1 << (self.universe + 1)) - 1)) ^ u64::from(mutate) << 40);
         let keep = |class: u32| (mask >> (class % 60)) & 1 == 1;
         let nkeep = s.model.ents.iter().filter(|e| keep(e.class)).count();
         let outcome = if nkeep == s.model.len() { "keep-all" } else if nkeep == 0 { "drop-all" } else { "some" };
-        self.cx.rep.hit(&format!("retain:{}:{}", outcome, fill_name(s.model.len(), N)));
+        if !self.light { self.cx.rep.hit(&format!("retain:{}:{}", outcome, fill_name(s.model.len(), N))); }
         let mut calls: Vec<u32> = Vec::new();
         let mut bad = false;
         s.fr.get_mut().retain(|k, v| {
@@ -729,9 +750,9 @@ impl<'a> Engine<'a> {
     }
 
     fn op_clear<F: Fam, const N: usize>(&mut self, s: &mut Sut<F, N>) {
-        self.h.begin_step("clear", "clear()".into());
+        self.step("clear", || "clear()".into());
         self.fp_step(s, O_CLEAR, 0, 0);
-        self.cx.rep.hit(&format!("clear:{}", fill_name(s.model.len(), N)));
+        if !self.light { self.cx.rep.hit(&format!("clear:{}", fill_name(s.model.len(), N))); }
         s.fr.get_mut().clear();
         s.model.clear();
     }
@@ -741,9 +762,9 @@ impl<'a> Engine<'a> {
         let len = s.model.len();
         let j = self.rng.usize_below(len + 2);
         let forget = self.cfg.allow_forget && self.rng.chance(1, 4);
-        self.h.begin_step("drain", format!("drain() take {} then {}", j, if forget { "forget" } else { "drop" }));
+        self.step("drain", || format!("drain() take {} then {}", j, if forget { "forget" } else { "drop" }));
         self.fp_step(s, O_DRAIN, j as u32, u64::from(forget));
-        self.cx.rep.hit(&format!("drain:{}:{}:{}", if j == 0 { "take0" } else if j >= len { "take-all" } else { "take-some" }, if forget { "forget" } else { "drop" }, fill_name(len, N)));
+        if !self.light { self.cx.rep.hit(&format!("drain:{}:{}:{}", if j == 0 { "take0" } else if j >= len { "take-all" } else { "take-some" }, if forget { "forget" } else { "drop" }, fill_name(len, N))); }
         let before = s.model.clone();
         let mut yielded: Vec<u32> = Vec::new();
         {
@@ -835,9 +856,9 @@ impl<'a> Engine<'a> {
         let kind = self.rng.usize_below(3);
         let forget = self.cfg.allow_forget && self.rng.chance(1, 4);
         let kname = ["into_iter", "into_keys", "into_values"][kind];
-        self.h.begin_step("consume", format!("{}() take {} then {}", kname, j, if forget { "forget" } else { "drop" }));
+        self.step("consume", || format!("{}() take {} then {}", kname, j, if forget { "forget" } else { "drop" }));
         self.fp_step(s, O_CONSUME, (kind * 100 + j) as u32, u64::from(forget));
-        self.cx.rep.hit(&format!("{}:{}:{}:{}", kname, if j == 0 { "take0" } else if j >= len { "take-all" } else { "take-some" }, if forget { "forget" } else { "drop" }, fill_name(len, N)));
+        if !self.light { self.cx.rep.hit(&format!("{}:{}:{}:{}", kname, if j == 0 { "take0" } else if j >= len { "take-all" } else { "take-some" }, if forget { "forget" } else { "drop" }, fill_name(len, N))); }
         let before = std::mem::replace(&mut s.model, Dict::new(N));
         let map = s.fr.take();
         let mut got: Vec<u32> = Vec::new(); // classes (or payloads for into_values)
@@ -926,9 +947,9 @@ impl<'a> Engine<'a> {
         let kname = ["iter", "iter_mut", "keys", "values", "values_mut"][kind];
         let len = s.model.len();
         let j = self.rng.usize_below(len + 1);
-        self.h.begin_step("iter_probe", format!("{}() probe, clone/count at step {}", kname, j));
+        self.step("iter_probe", || format!("{}() probe, clone/count at step {}", kname, j));
         self.fp_step(s, O_ITER, (kind * 100 + j) as u32, 0);
-        self.cx.rep.hit(&format!("{}:{}", kname, fill_name(len, N)));
+        if !self.light { self.cx.rep.hit(&format!("{}:{}", kname, fill_name(len, N))); }
         // reference traversal (ids in order) via iter()
         let reference: Vec<(u32, u64, u64, u32)> = s.fr.get().iter().map(|(k, v)| (k.class(), k.id(), v.id(), v.payload())).collect();
         macro_rules! exact {
@@ -1134,10 +1155,10 @@ impl<'a> Engine<'a> {
         let len = s.model.len();
         let j = self.rng.usize_below(len + 1);
         let which = self.rng.usize_below(11);
-        self.h.begin_step("fmt_probe", format!("fmt probe #{} after {} items", which, j));
+        self.step("fmt_probe", || format!("fmt probe #{} after {} items", which, j));
         self.fp_step(s, O_FMT, (which * 100 + j) as u32, 0);
         let names = ["map-debug", "map-alt-debug", "map-display", "Iter", "IterMut", "Keys", "Values", "ValuesMut", "IntoIter", "IntoKeys+IntoValues", "Drain"];
-        self.cx.rep.hit(&format!("fmt:{}:{}", names[which], fill_name(len, N)));
+        if !self.light { self.cx.rep.hit(&format!("fmt:{}:{}", names[which], fill_name(len, N))); }
         // independently observed entry sequence, in iteration order
         let obs: Vec<(u32, u32, u32)> = s.fr.get().iter().map(|(k, v)| (k.class(), k.tag(), v.payload())).collect();
         let kd = |e: &(u32, u32, u32)| F::K::dbg_render(e.0, e.1);
@@ -1290,11 +1311,11 @@ impl<'a> Engine<'a> {
         let payload = self.h.payload();
         let variant = self.rng.usize_below(8);
         let vname = ["or_insert", "or_insert_with", "or_insert_with_key", "or_default", "occupied.insert|vacant.insert", "occupied.remove|vacant.into_key", "occupied.remove_entry|vacant.key", "and_modify.or_insert"][variant];
-        self.h.begin_step("entry", format!("entry(K{}#{}).{} V{}", class, tag, vname, payload));
+        self.step("entry", || format!("entry(K{}#{}).{} V{}", class, tag, vname, payload));
         self.fp_step(s, O_ENTRY, class, variant as u64);
         let pre = s.model.get(class).cloned();
         let full = s.model.is_full();
-        self.cx.rep.hit(&format!("entry.{}:{}:{}", vname, pos_name(&s.order, class), fill_name(s.model.len(), N)));
+        if !self.light { self.cx.rep.hit(&format!("entry.{}:{}:{}", vname, pos_name(&s.order, class), fill_name(s.model.len(), N))); }
         let k = F::K::mk(class, tag);
         let kid = k.id();
         let m = s.fr.get_mut();
@@ -1474,9 +1495,9 @@ impl<'a> Engine<'a> {
 
     /// C15: clone with an event window, then both copies live on independently
     fn op_fork<F: Fam, const N: usize>(&mut self, s: &mut Sut<F, N>) -> Option<Sut<F, N>> {
-        self.h.begin_step("fork", "clone()".into());
+        self.step("fork", || "clone()".into());
         self.fp_step(s, O_FORK, 0, 0);
-        self.cx.rep.hit(&format!("clone:{}", fill_name(s.model.len(), N)));
+        if !self.light { self.cx.rep.hit(&format!("clone:{}", fill_name(s.model.len(), N))); }
         ledger::log_start();
         let c: Map<F::K, F::V, N> = s.fr.get().clone();
         let log = ledger::log_take();
@@ -1553,7 +1574,7 @@ impl<'a> Engine<'a> {
                         }
                     } else {
                         // destroy one copy: the other must be untouched (checked by the sweep)
-                        self.h.begin_step("drop-copy", format!("drop copy #{}", ix));
+                        self.step("drop-copy", || format!("drop copy #{}", ix));
                         self.cx.rep.evaluations += 1;
                         self.cx.rep.hit("drop-copy");
                         let dead = suts.remove(ix);
@@ -1640,6 +1661,9 @@ pub fn history<F: Fam, const N: usize>(cx: &mut Ctx, hist: u64, mut rng: Rng, ma
         rng,
         cfg,
         universe: N as u32 + 3,
+        light: false,
+        focus: 1,
     };
+    e.light = e.cx.args.flag("light");
     e.run_history::<F, N>(max_steps);
 }
